@@ -117,6 +117,57 @@ theorem splitlinesMismatch_witness : ¬ add_ignores_preserves_code_full := by
 
 example : D16_splitlinesMismatch ffState.lines = true := by decide
 
+/-! ## Comments and tokens (assumption A2 made precise on the line lexer) -/
+
+/-- Full statement: a comment-only line may be inserted anywhere without touching the token stream. -/
+def insert_comment_preserves_tokens_full : Prop :=
+  ∀ (lines : List Line) (p : Nat) (c : Line), 1 ≤ p → p ≤ lines.length → isCommentLine c = true →
+    lexTrace (.code 0) (insertAt lines (p - 1) c) = lexTrace (.code 0) lines
+
+/-- **insert_comment_preserves_tokens_partial.** Where line `p` starts neither inside a string literal nor
+after a backslash continuation (outside brackets), a comment-only line inserted before it changes neither
+the lexer state of any later line nor the sequence of lines that reach the token stream. -/
+theorem insert_comment_preserves_tokens_partial (lines : List Line) (p : Nat) (c : Line)
+    (hc : isCommentLine c = true) (hS : insideStringAt lines p = false) (hB : afterBackslashAt lines p = false) :
+    lexTrace (.code 0) (insertAt lines (p - 1) c) = lexTrace (.code 0) lines :=
+  lexTrace_insert lines p c hc (safeStart_of_not_D hS hB)
+
+/-- **add_ignores_preserves_tokens_partial.** Outside `D16_insideString`, `D16_afterBackslash` (and
+`D16_splitlinesMismatch`) an `--add-ignores` round leaves the token trace of the file unchanged. -/
+theorem add_ignores_preserves_tokens_partial (st : St) (hsep : NoExtraSep st.lines = true)
+    (hr : InRange st.lines st.raw = true) (hS : D16_insideString st.lines st.raw = false)
+    (hB : D16_afterBackslash st.lines st.raw = false) :
+    lexTrace (.code 0) (addIgnoresRound st).lines = lexTrace (.code 0) st.lines := by
+  rcases add_ignores_inserts_one_comment st hsep hr with ⟨_, h2⟩ | ⟨d, ds, h1, h2⟩
+  · rw [h2]
+  · rw [h2]
+    have hd : d ∈ st.raw := by
+      rw [diags_eq st hsep] at h1
+      exact (mem_visible.mp (by rw [h1]; simp)).1
+    have s1 : insideStringAt st.lines d.line = false := by
+      have := List.any_eq_false.mp hS d hd
+      simpa using this
+    have s2 : afterBackslashAt st.lines d.line = false := by
+      have := List.any_eq_false.mp hB d hd
+      simpa using this
+    exact insert_comment_preserves_tokens_partial st.lines d.line _ (isCommentLine_comment _ _) s1 s2
+
+/-- **Exception class `insideString`.** `s = f'''a` / `{x}` / `b'''`: a comment line before line 2 becomes
+a line of the string. -/
+theorem insideString_witness : ¬ insert_comment_preserves_tokens_full := by
+  intro h
+  have := h ["s = f'''a".toList, "{x}".toList, "b'''".toList] 2 "# c".toList (by decide) (by decide) (by decide)
+  revert this
+  decide
+
+/-- **Exception class `afterBackslash`.** `x = 1 + \` / `    y`: a comment line before line 2 is glued to
+the first line by the backslash and ends the logical line there. -/
+theorem afterBackslash_witness : ¬ insert_comment_preserves_tokens_full := by
+  intro h
+  have := h ["x = 1 + \\".toList, "    y".toList] 2 "    # c".toList (by decide) (by decide) (by decide)
+  revert this
+  decide
+
 /-! ## What the inserted comment suppresses -/
 
 /-- **ignore_suppresses_only_its_target.** Outside the leading comment block, the comment inserted for a
